@@ -98,8 +98,13 @@ int nsync_mu_semaphore_p_with_deadline (nsync_semaphore *s, nsync_time abs_deadl
 			if (nsync_time_cmp (abs_deadline, nsync_time_no_deadline) != 0) {
 				memset (&ts_buf, 0, sizeof (ts_buf));
 				if (FUTEX_TIMEOUT_IS_ABSOLUTE) {
-					ts_buf.tv_sec = NSYNC_TIME_SEC (abs_deadline);
-					ts_buf.tv_nsec = NSYNC_TIME_NSEC (abs_deadline);
+					/* The kernel rejects times before the epoch
+					   with EINVAL; any such deadline has expired,
+					   so leave ts_buf as the epoch itself.  */
+					if (nsync_time_cmp (abs_deadline, nsync_time_zero) > 0) {
+						ts_buf.tv_sec = NSYNC_TIME_SEC (abs_deadline);
+						ts_buf.tv_nsec = NSYNC_TIME_NSEC (abs_deadline);
+					}
 				} else {
 					nsync_time now;
 					now = nsync_time_now ();
